@@ -11,9 +11,10 @@
                                  one, same contig name and strand, for ARBITRARY overhang values.
     S1+S2 `cut_fragments_tiles`  whenever `cut_fragments` returns, the pieces it made tile the cut contig fragment exactly.
     S3  `fuse_fragments`         `scaffolds_fused_by_name` conserves the multiset of `(name,start,end)` triples
-        `fuse_gaps`              and only inserts the join gap / the recorded input gap.
+        `fuse_gaps`              and only inserts the join gap / the recorded input gap rows (a LIST since model change f6b).
     S4  `missing_rows_exact`     the left-over scaffold holds exactly the input fragments not in `found`, in order, each once;
-                                 separators are the input gap row in front of the fragment or the join gap; no new adjacency.
+                                 separators are input gap rows out of the run of gaps in front of the fragment (all of them
+                                 when only gaps separate two left-over contigs: model change f6b) or the join gap; no new adjacency.
     S5  `store_found_registers`  `store_fragments_found`: holder lists grow by exactly the occurrences, `multi` = keys with ≥ 2
                                  holders is an invariant.
 
@@ -31,6 +32,18 @@
         well-formedness hypothesis (distinct `(name,start,end)` keys and distinct object ids over the input fragments:
         the registry is keyed by the triple but the resolver compares object identity) and then chains S1/S2
         (`cut_fragments_tiles`), S4 and `outputs_hold_store_and_leftovers`.
+
+  UPDATE (wave 2) — the missing link is CLOSED, see the last section of this file ("the middle of
+  `remap_to_input_assembly` and the end-to-end theorem"): for an input satisfying the decidable well-formedness
+  predicate `WFInput`,
+    L1  `reg_after_find`          `find_assembly_overlaps` establishes the registry invariant `Reg`;
+    L2  `reg_resolver_round`, `reg_discard_overhanging`   every round of the overhang resolver and the whole loop keep it
+                                  (premises never go stale within a round: `Valid` in Proofs/C01MiddleResolve.lean);
+    L3  `reg_cut`                 `cutRemaining` turns "as many rows as holders" into "exactly one row per base";
+    L4  `remap_partitions`        END-TO-END, no hypothesis on the Pretext assembly: whenever `remap` completes, the
+                                  `(name,start,end)` triples of all output scaffolds cover every base of every input
+                                  contig exactly once, nothing else, and each is a sub-interval of an input fragment.
+  All four at full strength (no `_partial`); no statement was found false.
 -/
 import AgpTpf.Proofs.C01Qc
 import AgpTpf.Proofs.C01Store
@@ -40,6 +53,7 @@ import AgpTpf.Proofs.C01Cut
 import AgpTpf.Proofs.C07Lemmas
 import AgpTpf.Proofs.C01Pipeline
 import AgpTpf.Proofs.C07Pipeline
+import AgpTpf.Proofs.C01MiddleFinal
 namespace AgpTpf.C01
 open AgpTpf
 open AgpTpf.C07 (adjPairs)
@@ -120,15 +134,16 @@ theorem fuse_fragments (b : Build) :
     ((fuseByName b).flatMap (fun s => keysOf s.rows)).Perm (storeKeys b.store ++ extraKeys b.extra) :=
   fuseByName_keys b
 
-/-- where a gap row of a fused scaffold can come from -/
+/-- where a gap row of a fused scaffold can come from (model change f6b: a left-over scaffold now records the LIST of
+    input gap rows between its first contig and the predecessor contig; any of them may be re-inserted) -/
 def GapSrc (b : Build) (g : Gap) : Prop :=
   (∃ r ∈ b.store, r.added = true ∧ Row.gap g ∈ r.o.rows) ∨
   (∃ e ∈ b.extra, Row.gap g ∈ e.1.rows) ∨
   b.joinGap = some g ∨
-  (∃ e ∈ b.extra, ∃ prev, e.2 = some (prev, some g))
+  (∃ e ∈ b.extra, ∃ prev gaps, e.2 = some (prev, gaps) ∧ g ∈ gaps)
 
-/-- every gap row of a fused scaffold is a gap row of one of its parts, the join gap, or the input gap recorded with a
-    left-over scaffold's predecessor; and no fused scaffold is empty -/
+/-- every gap row of a fused scaffold is a gap row of one of its parts, the join gap, or one of the input gap rows
+    recorded with a left-over scaffold's predecessor; and no fused scaffold is empty -/
 theorem fuse_gaps (b : Build) : ∀ s ∈ fuseByName b, (∀ g, Row.gap g ∈ s.rows → GapSrc b g) ∧ s.rows ≠ [] := by
   apply fuseByName_all (fun rows => ∀ g, Row.gap g ∈ rows → GapSrc b g)
   · intro r hr hadd _
@@ -145,20 +160,16 @@ theorem fuse_gaps (b : Build) : ∀ s ∈ fuseByName b, (∀ g, Row.gap g ∈ s.
       · cases h2; exact Or.inr (Or.inr (Or.inl h1))
   · intro e he _
     have part : ∀ g, Row.gap g ∈ e.1.rows → GapSrc b g := fun g hg => Or.inr (Or.inl ⟨e, he, hg⟩)
-    have sep : ∀ built gg, gapBeforeLeftover b.joinGap built e.2 = some gg → GapSrc b gg := by
-      intro built gg h
-      rcases C07.gapBeforeLeftover_source _ _ _ _ h with h | ⟨prev, h⟩
+    refine ⟨part, fun built _ hb g hg => ?_⟩
+    simp only [List.mem_append] at hg
+    rcases hg with (h | h) | h
+    · exact hb g h
+    · obtain ⟨gg, e1, hsrc⟩ := C07.gapsBeforeLeftover_source _ _ _ _ h
+      cases e1
+      rcases hsrc with h | ⟨prev, gaps, h1, h2⟩
       · exact Or.inr (Or.inr (Or.inl h))
-      · exact Or.inr (Or.inr (Or.inr ⟨e, he, prev, h⟩))
-    refine ⟨fun g hg => ?_, fun built _ hb g hg => ?_⟩
-    · rcases mem_appendRows _ _ _ _ hg with h | h | ⟨gg, h1, h2⟩
-      · cases h
-      · exact part g h
-      · cases h2; exact sep _ _ h1
-    · rcases mem_appendRows _ _ _ _ hg with h | h | ⟨gg, h1, h2⟩
-      · exact hb g h
-      · exact part g h
-      · cases h2; exact sep _ _ h1
+      · exact Or.inr (Or.inr (Or.inr ⟨e, he, prev, gaps, h1, h2⟩))
+    · exact part g h
 
 private def jg : Gap := { length := 200, gapType := "scaffold".toList }
 private def fa : Fragment := { oid := 1, name := ['a'], start := 1, stop := 10, strand := 1 }
@@ -176,7 +187,8 @@ example : (fuseByName bx).map (·.rows) = [[.frag fa.reverse, .gap jg, .frag fb,
 
 /-- `missingRows` returning `(out, first)` for one input scaffold's `rows`:
     * the fragments of `out` are exactly the fragments of `rows` whose key is not in `found`, in order, each once;
-    * every gap row of `out` is the input gap row directly in front of such a fragment, or the join gap (`GapOK`);
+    * every gap row of `out` is an input gap row out of the run of gap rows directly in front of such a fragment, or the
+      join gap (`GapOK`; model change f6b: when only gap rows separate two left-over contigs, ALL of them are kept);
     * no new adjacency: fragments directly adjacent in `out` were directly adjacent rows of `rows`;
     * `out` neither starts nor ends with a gap;
     * `first` is the row index of the first left-over fragment. -/
@@ -193,7 +205,7 @@ theorem missing_rows_exact (b : Build) (rows out : List Row) (first : Option Nat
 theorem missing_rows_gaps (b : Build) (rows out : List Row) (first : Option Nat)
     (h : missingRows b rows = .ok (out, first)) (g : Gap) (hg : Row.gap g ∈ out) :
     Row.gap g ∈ rows ∨ b.joinGap = some g := by
-  rcases (missing_rows_exact b rows out first h).2.1 g hg with ⟨i, _, _, _, h3⟩ | h
+  rcases (missing_rows_exact b rows out first h).2.1 g hg with ⟨j, _, _, _, _, _, h3, _⟩ | h
   · exact Or.inl (List.mem_of_getElem? h3)
   · exact Or.inr h
 
@@ -204,6 +216,9 @@ private def bm : Build :=
 example : missingRows bm [.frag fa, .gap g5, .frag fb, .frag fc] = .ok ([.frag fa, .gap jg, .frag fc], some 0) := by decide
 example : missingRows bm [.frag fb, .frag fa, .frag fb, .gap g5, .frag fc] = .ok ([.frag fa, .gap g5, .frag fc], some 1) := by
   decide
+/-- model change f6b: when only gap rows separate two left-over contigs, every one of them is kept -/
+example : missingRows bm [.frag fa, .gap g5, .gap jg, .gap g5, .frag fc] =
+    .ok ([.frag fa, .gap g5, .gap jg, .gap g5, .frag fc], some 0) := by decide
 /-- without a join gap a needed separator is an error, not a silent gapless join -/
 example : missingRows { bm with joinGap := none } [.frag fa, .frag fb, .frag fc] = .error .attribute := by decide
 
@@ -318,5 +333,314 @@ theorem outputs_hold_store_and_leftovers (input ptx : List Scaffold) (prefix_ : 
 example : (remap [inA, inB] [ptx1] [] (some jg) 1).toOption.map
       (fun r => (r.1.flatMap (·.scaffolds)).flatMap (fun s => keysOf s.rows)) =
     some [fa.keyTuple, (['a'], 11, 20), fc.keyTuple] := by decide +kernel
+
+/-! ## L1–L4 — the middle of `remap_to_input_assembly` and the end-to-end theorem (wave 2)
+
+  Definitions (in `Proofs/C01MiddleBase.lean`, restated by `wfInput_iff` / `reg_iff` below):
+  * `inputFrags input` — all contig fragments of the input, in order;
+  * `WFInput input` (decidable) — scaffold names pairwise different, Fragment objects (`oid`) pairwise different over
+    the whole input, keys `(name,start,end)` pairwise different, fragments pairwise disjoint, `start ≤ end`;
+  * `Reg input b` — the registry invariant that holds from `find_assembly_overlaps` until cutting starts;
+  * `covers n x f` — fragment `f` contains base `x` of the contig called `n`;
+  * `storeFrags store` — the fragments held by the stored results that were appended to the build. -/
+
+theorem wfInput_iff (input : List Scaffold) :
+    WFInput input ↔
+      (input.map (·.name)).Nodup ∧
+      ((inputFrags input).map (·.oid)).Nodup ∧
+      ((inputFrags input).map Fragment.keyTuple).Nodup ∧
+      (inputFrags input).Pairwise (fun f g => f.name = g.name → f.stop < g.start ∨ g.stop < f.start) ∧
+      ∀ f ∈ inputFrags input, f.start ≤ f.stop := Iff.rfl
+
+/-- The registry invariant (before cutting no cut piece exists yet, so part (a) is simply "rows are input rows"). -/
+abbrev Reg (input : List Scaffold) (b : Build) : Prop := Mid input b
+
+/-- `Reg` spelled out:
+    (c) every registered key has ≥ 1 holder and `multi` = the keys with ≥ 2 holders, without duplicates;
+    (b) for every key and every result id, the id occurs in the key's holder list exactly as often as the rows of that
+        result (if it was appended to the build) contain a fragment with that key — see `reg_holders_by_object` for the
+        object-identity form and `reg_holder_once` for "at most once"; and in total: #holders = #stored rows with the key;
+    (a) every stored result's rows are a contiguous run of the rows of an input scaffold;
+    the Fragment object recorded for key `k` is a fragment of the input and has key `k`.
+    (d) follows: `reg_unregistered_absent`. -/
+theorem reg_iff (input : List Scaffold) (b : Build) :
+    Reg input b ↔
+      (RegistryInv b ∧ b.multi.Nodup) ∧
+      (∀ k sid, (holders b k).count sid = holdCount b.store k sid) ∧
+      (∀ k, (holders b k).length = (storeFrags b.store).countP (hasKey k)) ∧
+      (∀ r ∈ b.store, ∃ sc ∈ input, r.o.rows <:+: sc.rows) ∧
+      (∀ k fnd, dGet? b.found k = some fnd → fnd.fragment.keyTuple = k ∧ fnd.fragment ∈ inputFrags input) :=
+  ⟨fun h => ⟨⟨h.registry, h.multiNodup⟩, h.counts, h.total, h.slices, h.foundOK⟩,
+   fun ⟨⟨a, b⟩, c, d, e, f⟩ => ⟨a, b, c, d, e, f⟩⟩
+
+/-- (b) in terms of object identity: the holder list of a registered key lists exactly the stored results (appended to
+    the build) whose rows contain the recorded Fragment OBJECT, once per occurrence … -/
+theorem reg_holders_by_object (input : List Scaffold) (hwf : WFInput input) (b : Build) (h : Reg input b)
+    (k : Key) (fnd : Found) (hf : dGet? b.found k = some fnd) (sid : Nat) :
+    (holders b k).count sid =
+      match b.store[sid]? with
+      | some r => (resFrags r).countP (fun g => g.oid == fnd.fragment.oid)
+      | none => 0 :=
+  h.holders_by_object hwf k fnd hf sid
+
+/-- … and a result holds a key at most once, so every holder list is duplicate-free -/
+theorem reg_holder_once (input : List Scaffold) (hwf : WFInput input) (b : Build) (h : Reg input b) (k : Key) (sid : Nat) :
+    (holders b k).count sid ≤ 1 := by
+  rw [h.counts]; exact h.holdCount_le_one hwf k sid
+
+/-- (d): an input fragment whose key is not registered is in no stored result (it will be a left-over, S4) -/
+theorem reg_unregistered_absent (input : List Scaffold) (b : Build) (h : Reg input b) (k : Key)
+    (hf : dGet? b.found k = none) : ∀ g ∈ storeFrags b.store, g.keyTuple ≠ k :=
+  h.unregistered_absent k hf
+
+/-- L1 — `find_assembly_overlaps` on a fresh build establishes `Reg` (any input, any Pretext assembly). -/
+theorem reg_after_find (input ptx : List Scaffold) (b b' : Build)
+    (h0 : b.store = [] ∧ b.found = [] ∧ b.multi = [])
+    (h : findAssemblyOverlaps input ptx b = .ok b') :
+    Reg input b' ∧ b'.nextOid = b.nextOid ∧ b'.extra = b.extra ∧ b'.joinGap = b.joinGap ∧ b'.err = b.err ∧
+    b'.cuts = b.cuts := by
+  obtain ⟨a, c1, c2, c3, c4⟩ := reg_after_find_aux input ptx b b' h0 h
+  exact ⟨a, findAssemblyOverlaps_nextOid input ptx b b' h, c1, c2, c3, c4⟩
+
+/-- L2 — a productive round of the overhang resolver keeps `Reg`; in particular (`RegistryInv` inside `Reg`) every
+    registered key keeps at least one holder — a contig is never removed from its last holder — and holder lists stay
+    in step with the rows that `discard_start` / `discard_end` removed.  No key is added to or dropped from `found`,
+    the recorded objects stay, no Fragment object is created. -/
+theorem reg_resolver_round (input : List Scaffold) (hwf : WFInput input) (b b' : Build) (hr : Reg input b)
+    (h : resolverRound b = .ok (some b')) :
+    Reg input b' ∧
+    (∀ k, (dGet? b'.found k).map (·.fragment) = (dGet? b.found k).map (·.fragment)) ∧
+    (∀ k fnd', dGet? b'.found k = some fnd' → fnd'.scaffolds ≠ []) ∧
+    b'.nextOid = b.nextOid ∧ b'.extra = b.extra ∧ b'.cuts = b.cuts := by
+  obtain ⟨a, c1, c2, c3, _, _, c6, _⟩ := reg_resolver_round_aux input hwf b b' hr h
+  exact ⟨a, c1, a.registry.1, c2, c3, c6⟩
+
+/-- L2, the loop `discard_overhanging_fragments` (any fuel). -/
+theorem reg_discard_overhanging (input : List Scaffold) (hwf : WFInput input) (fuel : Nat) (b b' : Build)
+    (hr : Reg input b) (h : discardOverhanging fuel b = .ok b') :
+    Reg input b' ∧
+    (∀ k, (dGet? b'.found k).map (·.fragment) = (dGet? b.found k).map (·.fragment)) ∧
+    b'.nextOid = b.nextOid ∧ b'.extra = b.extra ∧ b'.cuts = b.cuts := by
+  obtain ⟨a, c1, c2, c3, _, _, c6, _⟩ := discardOverhanging_mid input hwf fuel b b' hr h
+  exact ⟨a, c1, c2, c3, c6⟩
+
+/-- L3 — `cutRemaining` on a build satisfying `Reg` (new objects get ids above the input's):
+    * every row of the store is then an input fragment or a piece (sub-interval, same contig name and strand, fresh
+      object id) of one;
+    * every base of a contig fragment that was left in `multi` is held by exactly ONE row of the store afterwards
+      (before: by as many rows as the key had holders);
+    * the number of rows holding any other base is unchanged;
+    * `multi` is empty, `found` untouched. -/
+theorem reg_cut (input : List Scaffold) (hwf : WFInput input) (b b' : Build) (hr : Reg input b)
+    (hoid : ∀ f ∈ inputFrags input, f.oid < b.nextOid) (h : cutRemaining b = .ok b') :
+    b'.multi = [] ∧ b'.found = b.found ∧
+    (∀ r ∈ b'.store, ∀ g ∈ fragmentsOf r.o.rows,
+      g ∈ inputFrags input ∨ (b.nextOid ≤ g.oid ∧ ∃ F ∈ inputFrags input,
+        F.start ≤ g.start ∧ g.stop ≤ F.stop ∧ g.start ≤ g.stop ∧ g.name = F.name ∧ g.strand = F.strand)) ∧
+    (∀ k ∈ b.multi, ∀ fnd, dGet? b.found k = some fnd → ∀ x, fnd.fragment.start ≤ x → x ≤ fnd.fragment.stop →
+      (storeFrags b'.store).countP (covers fnd.fragment.name x) = 1) ∧
+    (∀ n x, (∀ k ∈ b.multi, ∀ fnd, dGet? b.found k = some fnd → covers n x fnd.fragment = false) →
+      (storeFrags b'.store).countP (covers n x) = (storeFrags b.store).countP (covers n x)) := by
+  obtain ⟨a1, a2, _, a4, a5, a6⟩ := cutRemaining_account input hwf b b' hr hoid h
+  refine ⟨a1, a2, a4, ?_, a6⟩
+  intro k hk fnd hf x h1 h2
+  exact a5 _ x k hk fnd hf (by simp [covers, h1, h2])
+
+/-- base `x` of contig `n` lies in the interval of the triple `t` -/
+def coversK (n : Str) (x : Int) (t : Key) : Bool := decide (t.1 = n ∧ t.2.1 ≤ x ∧ x ≤ t.2.2)
+
+/-- all `(name,start,end)` triples of all scaffolds of all output assemblies -/
+def outputTriples (outs : List OutAsm) : List Key := (outs.flatMap (·.scaffolds)).flatMap (fun s => keysOf s.rows)
+
+/-- L4, END-TO-END — for a well-formed input and ANY Pretext assembly, prefix, join gap and texel size: whenever
+    `remap` completes,
+    * for every contig name `n` and position `x`, the number of output fragments (over all output assemblies: primary,
+      haplotypes, haplotigs, contaminants, false duplicates) containing base `x` of `n` equals the number of input
+      fragments containing it — which is 1 on the input contigs and 0 elsewhere (`remap_exactly_once`,
+      `remap_nothing_invented`);
+    * every output fragment is a non-empty sub-interval of a fragment of the input with the same contig name. -/
+theorem remap_partitions (input ptx : List Scaffold) (prefix_ : Str) (joinGap : Option Gap) (err : Int)
+    (outs : List OutAsm) (stats : Stats) (hwf : WFInput input)
+    (h : remap input ptx prefix_ joinGap err = .ok (outs, stats)) :
+    (∀ n x, (outputTriples outs).countP (coversK n x) = ((inputFrags input).map Fragment.keyTuple).countP (coversK n x)) ∧
+    (∀ t ∈ outputTriples outs, t.2.1 ≤ t.2.2 ∧
+      ∃ F ∈ inputFrags input, F.name = t.1 ∧ F.start ≤ t.2.1 ∧ t.2.2 ≤ F.stop) := by
+  obtain ⟨b, hb, hperm⟩ := outputs_hold_store_and_leftovers input ptx prefix_ joinGap err outs stats h
+  obtain ⟨p1, p2⟩ := remapToInput_partition input ptx prefix_ joinGap err b hwf hb
+  have hkeys : storeKeys b.store ++ extraKeys b.extra =
+      (storeFrags b.store ++ extraFrags b.extra).map Fragment.keyTuple := by
+    rw [storeKeys_eq, extraKeys_eq, List.map_append]
+  have hcov : ∀ n x, (coversK n x ∘ Fragment.keyTuple) = covers n x := by
+    intro n x; funext f; rfl
+  constructor
+  · intro n x
+    unfold outputTriples
+    rw [hperm.countP_eq, hkeys, List.countP_map, List.countP_map, hcov]
+    exact p1 n x
+  · intro t ht
+    have : t ∈ storeKeys b.store ++ extraKeys b.extra := hperm.subset ht
+    rw [hkeys] at this
+    obtain ⟨g, hg, rfl⟩ := List.mem_map.mp this
+    obtain ⟨F, hF, q1, q2, q3, q4, _⟩ := p2 g hg
+    exact ⟨q3, F, hF, q4.symm, q1, q2⟩
+
+/-- nothing is lost or duplicated: every base of every input contig fragment lies in exactly one output fragment -/
+theorem remap_exactly_once (input ptx : List Scaffold) (prefix_ : Str) (joinGap : Option Gap) (err : Int)
+    (outs : List OutAsm) (stats : Stats) (hwf : WFInput input)
+    (h : remap input ptx prefix_ joinGap err = .ok (outs, stats))
+    (F : Fragment) (hF : F ∈ inputFrags input) (x : Int) (h1 : F.start ≤ x) (h2 : x ≤ F.stop) :
+    (outputTriples outs).countP (coversK F.name x) = 1 := by
+  rw [(remap_partitions input ptx prefix_ joinGap err outs stats hwf h).1, List.countP_map]
+  have hcov : (coversK F.name x ∘ Fragment.keyTuple) = covers F.name x := by funext f; rfl
+  rw [hcov]
+  exact hwf.cover_count hF (by simp [covers, h1, h2])
+
+/-- nothing is invented: a base that is in no input fragment is in no output fragment -/
+theorem remap_nothing_invented (input ptx : List Scaffold) (prefix_ : Str) (joinGap : Option Gap) (err : Int)
+    (outs : List OutAsm) (stats : Stats) (hwf : WFInput input)
+    (h : remap input ptx prefix_ joinGap err = .ok (outs, stats))
+    (n : Str) (x : Int) (hno : ∀ F ∈ inputFrags input, ¬ (F.name = n ∧ F.start ≤ x ∧ x ≤ F.stop)) :
+    ∀ t ∈ outputTriples outs, ¬ (t.1 = n ∧ t.2.1 ≤ x ∧ x ≤ t.2.2) := by
+  have h0 : (outputTriples outs).countP (coversK n x) = 0 := by
+    rw [(remap_partitions input ptx prefix_ joinGap err outs stats hwf h).1, List.countP_eq_zero]
+    intro k hk
+    obtain ⟨F, hF, rfl⟩ := List.mem_map.mp hk
+    intro hc
+    simp only [coversK, decide_eq_true_eq] at hc
+    exact hno F hF hc
+  rw [List.countP_eq_zero] at h0
+  intro t ht hc
+  exact h0 t ht (by simpa [coversK] using hc)
+
+/-! ### non-vacuity: an input where the resolver discards a sliver and a contig is cut in two
+
+  Scaffold `A` = c1:1-100, c2:1-4, c3:1-100 (no gaps), scaffold `B` = d1:1-50(−), texel size 5.
+  Pretext pieces A:1-102, A:103-150, A:151-204: the sliver `c2` is found by the first two pieces, `c3` by the last two.
+  The resolver removes `c2` from the second piece (2 bp of bait on either side: the tie goes to the second premise);
+  `c3` stays in `multi` and is cut into c3:1-46 / c3:47-100; `d1` is left over. -/
+
+private def xc1 : Fragment := { oid := 1, name := "c1".toList, start := 1, stop := 100, strand := 1 }
+private def xc2 : Fragment := { oid := 2, name := "c2".toList, start := 1, stop := 4, strand := 1 }
+private def xc3 : Fragment := { oid := 3, name := "c3".toList, start := 1, stop := 100, strand := 1 }
+private def xd1 : Fragment := { oid := 4, name := "d1".toList, start := 1, stop := 50, strand := -1 }
+private def xIn : List Scaffold :=
+  [{ name := ['A'], rows := [.frag xc1, .frag xc2, .frag xc3] }, { name := ['B'], rows := [.frag xd1] }]
+private def xpf (oid : Nat) (s e : Int) : Row :=
+  .frag { oid := oid, name := ['A'], start := s, stop := e, strand := 1, tags := [sPainted] }
+private def xPtx : List Scaffold :=
+  [{ name := "S1".toList, rows := [xpf 10 1 102] }, { name := "S2".toList, rows := [xpf 11 103 150] },
+   { name := "S3".toList, rows := [xpf 12 151 204] }]
+
+/-- the input is well-formed (decided), an input with an object used twice is not -/
+example : WFInput xIn := by decide
+example : ¬ WFInput [{ name := ['A'], rows := [.frag xc1, .frag xc1] }] := by decide
+
+/-- find → resolver loop → cutting, as `remap_to_input_assembly` chains them -/
+private def xRun : R (Build × Build × Build) := do
+  let b1 ← findAssemblyOverlaps xIn xPtx (freshBuild xIn [] (some jg) 5)
+  let b2 ← discardOverhanging (totalRows b1.store + 2) b1
+  let b3 ← cutRemaining b2
+  pure (b1, b2, b3)
+
+set_option synthInstance.maxSize 1024 in
+private theorem xRun_values :
+    xRun.toOption.map (fun t =>
+      ((t.1.multi, t.1.found.map (fun e => (e.1, e.2.scaffolds))),
+       (t.2.1.multi, t.2.1.found.map (fun e => (e.1, e.2.scaffolds))),
+       t.2.1.store.map (fun r => keysOf r.o.rows), t.2.2.store.map (fun r => keysOf r.o.rows))) =
+    some (([xc2.keyTuple, xc3.keyTuple], [(xc1.keyTuple, [0]), (xc2.keyTuple, [0, 1]), (xc3.keyTuple, [1, 2])]),
+          ([xc3.keyTuple], [(xc1.keyTuple, [0]), (xc2.keyTuple, [0]), (xc3.keyTuple, [1, 2])]),
+          [[xc1.keyTuple, xc2.keyTuple], [xc3.keyTuple], [xc3.keyTuple]],
+          [[xc1.keyTuple, xc2.keyTuple], [("c3".toList, 1, 46)], [("c3".toList, 47, 100)]]) := by
+  decide +kernel
+
+/-- `Reg` holds after the search (two keys in `multi`), after the resolver (one left: two pieces share contig `c3`), and
+    cutting then leaves every base of `c3` in exactly one stored row -/
+example : ∃ b1 b2 b3,
+    findAssemblyOverlaps xIn xPtx (freshBuild xIn [] (some jg) 5) = .ok b1 ∧
+    discardOverhanging (totalRows b1.store + 2) b1 = .ok b2 ∧ cutRemaining b2 = .ok b3 ∧
+    Reg xIn b1 ∧ b1.multi = [xc2.keyTuple, xc3.keyTuple] ∧
+    Reg xIn b2 ∧ b2.multi = [xc3.keyTuple] ∧ holders b2 xc3.keyTuple = [1, 2] ∧
+    (∀ x, 1 ≤ x → x ≤ 100 → (storeFrags b3.store).countP (covers "c3".toList x) = 1) := by
+  have hv := xRun_values
+  unfold xRun at hv
+  simp only [bind, Except.bind] at hv
+  split at hv
+  · simp [Except.toOption] at hv
+  · next b1 hb1 =>
+    split at hv
+    · simp [Except.toOption] at hv
+    · next b2 hb2 =>
+      split at hv
+      · simp [Except.toOption] at hv
+      · next b3 hb3 =>
+        simp only [pure, Except.pure, Except.toOption, Option.map_some, Option.some.injEq, Prod.mk.injEq] at hv
+        obtain ⟨⟨m1, _⟩, ⟨m2, f2⟩, _, _⟩ := hv
+        have hwf : WFInput xIn := by decide
+        obtain ⟨r1, n1, _⟩ := reg_after_find xIn xPtx _ b1 ⟨rfl, rfl, rfl⟩ hb1
+        obtain ⟨r2, _, n2, _⟩ := reg_discard_overhanging xIn hwf _ b1 b2 r1 hb2
+        have hoid : ∀ f ∈ inputFrags xIn, f.oid < b2.nextOid := by
+          rw [n2, n1]; decide
+        have hf3 : ∃ fnd, dGet? b2.found xc3.keyTuple = some fnd ∧ fnd.scaffolds = [1, 2] := by
+          have hmem : xc3.keyTuple ∈ b2.multi := by rw [m2]; simp
+          have h2 := (r2.registry.2 _).mp hmem
+          cases hd : dGet? b2.found xc3.keyTuple with
+          | none => simp [holders, hd] at h2
+          | some fnd =>
+            refine ⟨fnd, rfl, ?_⟩
+            have hmm := dGet?_mem _ _ _ hd
+            have : (xc3.keyTuple, fnd.scaffolds) ∈ b2.found.map (fun e => (e.1, e.2.scaffolds)) :=
+              List.mem_map.mpr ⟨_, hmm, rfl⟩
+            rw [f2] at this
+            simp [Fragment.keyTuple, xc1, xc2, xc3] at this
+            exact this
+        obtain ⟨fnd, hd, hsc⟩ := hf3
+        have hfr : fnd.fragment = xc3 := by
+          obtain ⟨a1, a2⟩ := r2.foundOK _ _ hd
+          exact hwf.key_inj a2 (by decide) a1
+        refine ⟨b1, b2, b3, hb1, hb2, hb3, r1, m1, r2, m2, by simp [holders, hd, hsc], ?_⟩
+        intro x h1 h2
+        have := (reg_cut xIn hwf b2 b3 r2 hoid hb3).2.2.2.1 xc3.keyTuple (by rw [m2]; simp) fnd hd x
+          (by rw [hfr]; exact h1) (by rw [hfr]; exact h2)
+        rw [hfr] at this; exact this
+
+/-- end to end on the same input: the output triples, and the instance of `remap_exactly_once` for base 46/47 of `c3` -/
+private theorem xRemap_triples :
+    (remap xIn xPtx [] (some jg) 5).toOption.map (fun r => outputTriples r.1) =
+      some [xc1.keyTuple, xc2.keyTuple, ("c3".toList, 47, 100), ("c3".toList, 1, 46), xd1.keyTuple] := by
+  decide +kernel
+
+example : ∃ outs stats, remap xIn xPtx [] (some jg) 5 = .ok (outs, stats) ∧
+    (outputTriples outs).countP (coversK "c3".toList 46) = 1 ∧ (outputTriples outs).countP (coversK "c3".toList 47) = 1 := by
+  have hv := xRemap_triples
+  cases hr : remap xIn xPtx [] (some jg) 5 with
+  | error e => rw [hr] at hv; simp [Except.toOption] at hv
+  | ok r =>
+    obtain ⟨outs, stats⟩ := r
+    refine ⟨outs, stats, rfl, ?_, ?_⟩
+    · exact remap_exactly_once xIn xPtx [] (some jg) 5 outs stats (by decide) hr xc3 (by decide) 46 (by decide) (by decide)
+    · exact remap_exactly_once xIn xPtx [] (some jg) 5 outs stats (by decide) hr xc3 (by decide) 47 (by decide) (by decide)
+
+set_option synthInstance.maxSize 1024 in
+/-- L2 is not vacuous: on the input above the first resolver round is productive (it removes the sliver `c2` from the
+    second piece) and leaves one key in `multi` -/
+example : ((findAssemblyOverlaps xIn xPtx (freshBuild xIn [] (some jg) 5)) >>= resolverRound).toOption.map
+    (fun (o : Option Build) => o.map (fun b => (b.multi, holders b xc2.keyTuple))) = some (some ([xc3.keyTuple], [0])) := by
+  decide +kernel
+
+/-! ### why the key-distinctness part of `WFInput` is needed (a finding, not a proof obligation)
+
+  The registry is keyed by `(name,start,end)`.  If the input lists the same contig interval twice (here: scaffolds `A`
+  and `B` both consist of c:1-10, as two different Fragment objects) and the Pretext assembly places only `A`, the copy
+  in `B` counts as "found" and is neither placed nor left over: `remap` completes and the output holds c:1-10 ONCE.
+  No error is raised.  Such an input violates `WFInput` (duplicate key / overlapping fragments). -/
+private def yIn : List Scaffold :=
+  [{ name := ['A'], rows := [.frag { oid := 1, name := ['c'], start := 1, stop := 10, strand := 1 }] },
+   { name := ['B'], rows := [.frag { oid := 2, name := ['c'], start := 1, stop := 10, strand := 1 }] }]
+private def yPtx : List Scaffold := [{ name := "S1".toList, rows := [xpf 10 1 10] }]
+example : ¬ WFInput yIn := by decide
+example : (remap yIn yPtx [] (some jg) 5).toOption.map (fun r => outputTriples r.1) = some [(['c'], 1, 10)] ∧
+    ((inputFrags yIn).map Fragment.keyTuple) = [(['c'], 1, 10), (['c'], 1, 10)] := by
+  constructor <;> decide +kernel
 
 end AgpTpf.C01
